@@ -128,6 +128,17 @@
 #[macro_use]
 extern crate alloc;
 
+#[cfg(feature = "verif-hooks")]
+macro_rules! verif_step {
+    ($site: ident) => {
+        crate::verif::step(crate::verif::Site::$site)
+    };
+}
+#[cfg(not(feature = "verif-hooks"))]
+macro_rules! verif_step {
+    ($site: ident) => {};
+}
+
 pub mod access;
 mod as_raw;
 pub mod cache;
@@ -138,6 +149,9 @@ mod ref_cnt;
 #[cfg(feature = "serde")]
 mod serde;
 pub mod strategy;
+#[cfg(feature = "verif-hooks")]
+#[doc(hidden)]
+pub mod verif;
 #[cfg(feature = "weak")]
 mod weak;
 
@@ -469,6 +483,7 @@ impl<T: RefCnt, S: Strategy<T>> ArcSwapAny<T, S> {
         // one.
         //
         // SeqCst to synchronize the time lines with the group counters.
+        verif_step!(SWAP_XCHG);
         let old = self.ptr.swap(new, Ordering::SeqCst);
         unsafe {
             self.strategy.wait_for_readers(old, &self.ptr);
